@@ -1,5 +1,6 @@
 import DoviModel.Proofs.Split
 import DoviModel.Proofs.Hevc
+import DoviModel.Props.C13
 /-!
 # C05 — HEVC pass-through commands neither lose, alter nor reorder NAL units
 
@@ -237,5 +238,51 @@ example : (general { cfgConvert with convSet := true } exConv (exItems.take 6)).
 /-- start codes of `--start-code annex-b`: 4 bytes for AUD / parameter sets / RPU and the first NAL of a frame -/
 example : (general { cfgConvert with annexb := true } exConv exItems).map (fun s => s.sl.map (·.sc)) =
     some [4, 4, 3, 3, 4, 4, 3, 4, 3] := by decide
+
+/-! ## the link between the two layers: bytes ↔ NAL lists -/
+
+/-- what a command writes, as a file: each NAL behind its 3- or 4-byte start code -/
+def fileOf (outs : List Hevc.Out) : Bytes :=
+  Split.render (outs.map fun o => (o.sc == 4, o.data))
+
+/-- **written output, re-read**: splitting the bytes a command wrote at start codes (the reader's scan followed
+by its `size - 1` rule) returns exactly the NAL payloads the NAL-level model says were written, in order — for
+every list of written NALs, any mixture of 3- and 4-byte start codes, provided no NAL contains a start code and
+none ends in a zero byte (true of every NAL the tool writes: RPUs by `C13.nal_no_start_code` / they end in
+`0x80`; video NALs end in their rbsp trailing bits). Together with `chunked_split_eq_spec` (the chunked reader =
+this scan, for every chunking) it connects the byte level to the `Item`/`Out` lists the routing theorems speak
+about: the NAL list a command reads from a file another command wrote is the list that command wrote. -/
+theorem written_output_resplits (outs : List Hevc.Out)
+    (hsc : ∀ o ∈ outs, (Split.split o.data).2 = [])
+    (hz : ∀ o ∈ outs, o.data.getLast? ≠ some 0) :
+    Split.fixAll (Split.split (fileOf outs)).2 = outs.map (·.data) := by
+  unfold fileOf
+  have h1 : ∀ u ∈ outs.map (fun o => (o.sc == 4, o.data)), (Split.split u.2).2 = [] := by
+    intro u hu
+    obtain ⟨o, ho, rfl⟩ := List.mem_map.mp hu
+    exact hsc o ho
+  have h2 : ∀ u ∈ outs.map (fun o => (o.sc == 4, o.data)), u.2.getLast? ≠ some 0 := by
+    intro u hu
+    obtain ⟨o, ho, rfl⟩ := List.mem_map.mp hu
+    exact hz o ho
+  rw [Split.split_render _ h1]
+  rw [C13.split_written_file_exact _ h1 h2]
+  simp [List.map_map, Function.comp_def]
+
+/-- … and the number of NAL units read back is the number written (nothing split or merged), even when
+payloads end in zero bytes -/
+theorem written_output_count (outs : List Hevc.Out) (hsc : ∀ o ∈ outs, (Split.split o.data).2 = []) :
+    (Split.split (fileOf outs)).2.length = outs.length := by
+  unfold fileOf
+  have h1 : ∀ u ∈ outs.map (fun o => (o.sc == 4, o.data)), (Split.split u.2).2 = [] := by
+    intro u hu
+    obtain ⟨o, ho, rfl⟩ := List.mem_map.mp hu
+    exact hsc o ho
+  rw [C13.split_written_file_count _ h1]
+  simp
+
+example : Split.fixAll (Split.split (fileOf [⟨4, 32, [0x40, 1, 0x0C]⟩, ⟨3, 1, [0x02, 1, 0xD0, 0x80]⟩, ⟨4, 62, [0x7C, 1, 0x19, 8, 0x80]⟩])).2
+    = [[0x40, 1, 0x0C], [0x02, 1, 0xD0, 0x80], [0x7C, 1, 0x19, 8, 0x80]] := by
+  simp [fileOf, Split.render, Split.lead, Split.SC, Split.split, Split.fixAll, Split.fixTrail]
 
 end Dovi.C05
